@@ -55,6 +55,8 @@ def tagged(v, depth=0):
     if isinstance(v, types.FunctionType):
         return {"f": 1}
     if isinstance(v, sympy.Basic):
+        if v in (sympy.zoo, sympy.nan, sympy.oo, -sympy.oo) or v.has(sympy.zoo, sympy.nan, sympy.oo):
+            return {"x": "non-finite"}
         return {"y": str(v)[:60]}
     return {"x": type(v).__name__}
 
